@@ -1,15 +1,16 @@
 CONSTANTS
   Fault = "none"
   KeyIds = {"k1", "k2"}
-  Statuses = {"ENABLED", "DISABLED"}
-  MCClasses = {"AEAD", "VERIFY", "STREAM"}
-  MCAccessors = {"entryKey", "material", "write"}
-  MaxKeys = 2
+  Statuses = {"ENABLED"}
+  MCClasses = {"AEAD"}
+  MCAccessors = {"entryKey"}
+  MaxKeys = 1
   MaxHandles = 2
-  MaxMgrs = 1
-  MaxPrims = 2
-  MaxDid = 2
-  MaxOpts = 1
+  MaxMgrs = 2
+  MaxPrims = 1
+  MaxDid = 1
+  MaxOpts = 2
+  MCPublic = TRUE
 INIT Init
 NEXT MCNext
 CONSTRAINT Bound
